@@ -47,7 +47,16 @@ def start_row_is(m, r=0):
     return int(m.start_pos[0]) == r
 
 
-PREDS = {"sol_len_at_least": sol_len_at_least, "start_row_is": start_row_is}
+def end_col_is(m, c=0):
+    # answers with a NumPy boolean, as any predicate written with array comparisons does
+    return m.end_pos[1] == c
+
+
+def far_apart(m, d=2):
+    return np.abs(np.asarray(m.start_pos, dtype=np.int64) - np.asarray(m.end_pos, dtype=np.int64)).sum() >= d  # np.bool_
+
+
+PREDS = {"sol_len_at_least": sol_len_at_least, "start_row_is": start_row_is, "end_col_is": end_col_is, "far_apart": far_apart}
 
 
 # ---- reference model --------------------------------------------------------------------------------
@@ -210,6 +219,10 @@ def model_filter(m: Model, f: dict):
             return [i for i, r in enumerate(R) if len(r[2]) >= kw.get("k", 2)]
         if pn == "start_row_is":
             return [i for i, r in enumerate(R) if r[2][0][0] == kw.get("r", 0)]
+        if pn == "end_col_is":
+            return [i for i, r in enumerate(R) if r[2][-1][1] == kw.get("c", 0)]
+        if pn == "far_apart":
+            return [i for i, r in enumerate(R) if abs(r[2][0][0] - r[2][-1][0]) + abs(r[2][0][1] - r[2][-1][1]) >= kw.get("d", 2)]
     raise KeyError(name)
 
 
@@ -654,9 +667,14 @@ def rand_filter(rng: random.Random) -> dict:
         if rng.random() < 0.2:
             kw["allow_fail"] = rng.random() < 0.5
         return {"name": "collect_generation_meta", "args": [], "kwargs": kw}
-    if rng.random() < 0.5:
+    which = rng.random()
+    if which < 0.3:
         return {"name": "__custom__:sol_len_at_least", "kwargs": {"k": rng.randint(1, 5)}}
-    return {"name": "__custom__:start_row_is", "kwargs": {"r": rng.randint(0, 2)}}
+    if which < 0.55:
+        return {"name": "__custom__:start_row_is", "kwargs": {"r": rng.randint(0, 2)}}
+    if which < 0.8:
+        return {"name": "__custom__:end_col_is", "kwargs": {"c": rng.randint(0, 2)}}
+    return {"name": "__custom__:far_apart", "kwargs": {"d": rng.randint(1, 4)}}
 
 
 def gen_specs(rng: random.Random, tier: str, n: int) -> list[dict]:
